@@ -29,6 +29,9 @@ FORBIDDEN = re.compile(
 
 ENV = dict(os.environ)
 ENV["CARGO_NET_OFFLINE"] = "true"
+# harness/.cargo/config.toml names /verif/.build/cargo; a copy of /verif elsewhere (work packages,
+# background runs from a snapshot) builds into its own .build instead
+ENV["CARGO_TARGET_DIR"] = os.path.join(BUILD, "cargo")
 
 
 def hx(b):
